@@ -296,6 +296,7 @@ type ForRange struct {
 	Var       string
 	T         *Type
 	Lo, Hi    Expr
+	Step      Expr // nil = 1; `lo..hi:step` (the sign of step gives the direction)
 	Inclusive bool
 	Body      []Stmt
 }
